@@ -433,3 +433,32 @@ Theorem add_reduce_axes_total :
   /\ length shape' = (length shape - length axes)%nat.
 Proof. exact reduce_axes_add_total. Qed.
 Print Assumptions add_reduce_axes_total.
+
+(* ------------------------------------------------------------------------
+   Legacy interface x.ufuncs.<name>() on power spaces (odl/util/ufuncs.py:
+   wrap_ufunc_productspace), for element TREES of any nesting depth and any
+   number of parts, any one-output elementwise ufunc (F1 = NumPy's result
+   dtype, f1 = the function): the result is the element of the same space
+   whose leaves are f(leaf) converted back to the leaf dtype ... *)
+From Verif Require Import C17.Legacy C17.LegacyProofs.
+Theorem legacy_pspace_closed_form :
+  forall (T : Type) (cast : dt -> dt -> T -> T) (F1 : dt -> dt) (f1 : dt -> T -> T) (ts : list (@ptree T)),
+  legacy1 cast F1 f1 (PNode ts) = legacy1_spec cast F1 f1 (PNode ts).
+Proof. exact @legacy1_closed_form. Qed.
+Print Assumptions legacy_pspace_closed_form.
+
+(* ... so it agrees with NumPy on the underlying arrays (numbers and dtype)
+   whenever every leaf keeps its dtype under the ufunc. *)
+Theorem legacy_pspace_agrees_with_numpy_partial :
+  forall (T : Type) (cast : dt -> dt -> T -> T) (F1 : dt -> dt) (f1 : dt -> T -> T) (ts : list (@ptree T)),
+  dtype_preserved F1 (PNode ts) -> legacy1 cast F1 f1 (PNode ts) = numpy1 F1 f1 (PNode ts).
+Proof. exact @legacy1_agrees_with_numpy. Qed.
+Print Assumptions legacy_pspace_agrees_with_numpy_partial.
+
+(* FULL STATEMENT (FALSE): the same without the dtype guard.  Refuted by
+   true_divide(x, 2) on tensor_space(2, dtype=int)**2: the float results are
+   truncated into the integer space (finding
+   pspace-integer-space-truncates-float-results). *)
+Theorem legacy_pspace_agrees_with_numpy_refuted :
+  exists t : @ptree Q, legacy1 castQ Fhalf (lop_f LHalf) t <> numpy1 Fhalf (lop_f LHalf) t.
+Proof. exact legacy_vs_numpy_refuted. Qed.
